@@ -571,6 +571,12 @@ pub fn run(tier: &str) -> i32 {
     let progs: Vec<File> = progs.iter().map(|f| tag_messages(f, "")).collect();
     let mut docs: Vec<V> = docs_quick().into_iter().step_by(if thorough { 2 } else { 7 }).collect();
     docs.push(m(vec![("a", l(vec![m(vec![("a", i(1)), ("b", i(1))]), m(vec![("b", i(2))])])), ("b", i(1))]));
+    // the same keys inside documents that the Terraform-aware / CloudFormation-aware console reporters recognise by their
+    // top-level shape (with and without anything to report)
+    docs.push(m(vec![("a", i(1)), ("b", i(1)), ("resource_changes", l(vec![m(vec![("address", s("t.n")), ("change", m(vec![("after", m(vec![("x", i(1))]))]))])]))]));
+    docs.push(m(vec![("a", l(vec![i(1)])), ("resource_changes", l(vec![]))]));
+    docs.push(m(vec![("a", i(1)), ("b", i(1)), ("Resources", m(vec![("r", m(vec![("Type", s("T")), ("Properties", m(vec![("x", i(1))]))]))]))]));
+    docs.push(m(vec![("a", l(vec![i(1)])), ("Resources", m(vec![]))]));
     let djs: Vec<String> = docs.iter().map(|d| d.json()).collect();
     let cfgs = configs();
     let n = progs.len() * djs.len();
